@@ -70,10 +70,10 @@ class AliasRule(sym.Rule):
         self.tracked = ()
         self.entries = 0
         et = {'NM': '%"struct.svp::NM"*', 'TM': '%"struct.svp::TM"*', 'MO': '%"struct.svp::MO"*',
-              'MOT': '%"struct.svp::MOT"*', 'CO': '%"struct.svp::CO"*', 'TR': '%"struct.svp::TR"*',
+              'MOT': '%"struct.svp::MOT"*', 'NA': '%"struct.svp::NA"*', 'CO': '%"struct.svp::CO"*', 'TR': '%"struct.svp::TR"*',
               'int': 'i32*', 'intp': 'i32**'}[cfg.elem]
         self.elem_ptr_types = {et}
-        self.esize = {'NM': 4, 'TM': 4, 'MO': 4, 'MOT': 4, 'CO': 4, 'TR': 8, 'int': 4, 'intp': 8}[cfg.elem]
+        self.esize = {'NM': 4, 'NA': 4, 'TM': 4, 'MO': 4, 'MOT': 4, 'CO': 4, 'TR': 8, 'int': 4, 'intp': 8}[cfg.elem]
 
     def init(self, f, eng):
         return None      # None = pristine; otherwise description of the clobbering event
